@@ -137,7 +137,13 @@ func genC01(r *Rand, tier string) Case {
 
 type c01Sink struct{ b []byte }
 
-func (s *c01Sink) Write(p []byte) (int, error) { s.b = append(s.b, p...); return len(p), nil }
+func (s *c01Sink) Write(p []byte) (int, error) {
+	// a writer endpoint takes time (F-endpoint stall): other tasks run while WriteTo is inside w.Write
+	simrt.Yield("c01-sink-write")
+	s.b = append(s.b, p...)
+	simrt.Yield("c01-sink-written")
+	return len(p), nil
+}
 
 // endpoint reader with short reads and (0,nil) results (F-endpoint)
 type c01Src struct {
